@@ -34,6 +34,12 @@ class Abort(BaseException):
     """raised inside a parked logical thread to unwind it at the end of a history"""
 
 
+def recipient(m):
+    """the channel id a channel message is addressed to (first uint32 after the type byte)"""
+    from paramiko.message import Message
+    return Message(m.asbytes()[1:]).get_int()
+
+
 def decode(m):
     """channel message -> canonical token (d<n> x<n> a<n> E C, or ?<type>)"""
     from paramiko.message import Message
@@ -157,6 +163,11 @@ class FakeCV:
         lt = self.rig.current()
         if lt is None:
             raise InfraError("out_buffer_cv.wait outside a logical thread")
+        if self.rig.chan.timeout == 0 and lt.state != "waiting" and self.rig.nonblocking_wait is None:
+            # (lt.state is still the previous park point: "waiting" means this is a re-wait of a call that started
+            # before the mode was changed, which legitimately keeps its own timeout)
+            # non-blocking mode (settimeout(0) / settimeout(0.0) / setblocking(0)): must raise, never sleep
+            self.rig.nonblocking_wait = (lt.local, timeout)
         self.waiters.append(lt)
         self.lock.release()
         try:
@@ -194,6 +205,10 @@ class FakeTransport:
 
     def _send_user_message(self, m):
         tok = decode(m)
+        to = recipient(m)
+        if to != self.rig.remote_id and self.rig.misaddressed is None:
+            # every channel message must name the PEER's id for the channel, never our own
+            self.rig.misaddressed = (tok, to)
         lt = self.rig.current()
         if lt is not None:
             if lt.park("hold", tok) == "fail":
@@ -242,7 +257,7 @@ POOL = Pool()
 
 class Rig:
     def __init__(self, in_win, peer_win, peer_max, nthr, combine=False, chanid=1, base=0, stmt_gates=False,
-                 adjust_gate=False):
+                 adjust_gate=False, remote_id=None):
         import paramiko.channel as chmod
         from paramiko.message import Message
         self.chmod = chmod
@@ -250,6 +265,9 @@ class Rig:
         self.wire, self.wire_by = [], []
         self.linked = True
         self.gates = None
+        self.remote_id = remote_id if remote_id is not None else chanid + 1006   # never equal to our own id
+        self.misaddressed = None       # (token, id) of the first message not addressed to the peer's id
+        self.nonblocking_wait = None   # (thread, timeout) of the first out_buffer_cv.wait entered in non-blocking mode
         self.nthr = nthr
         self.events = POOL.events
         POOL.ensure(self, base + nthr)
@@ -260,7 +278,7 @@ class Rig:
         chan = self.chan = chmod.Channel(chanid)
         chan._set_transport(self.transport)
         chan._set_window(in_win, 1 << 15)
-        chan._set_remote_channel(7, peer_win, peer_max)
+        chan._set_remote_channel(self.remote_id, peer_win, peer_max)
         chan.combine_stderr = combine
         chan.out_buffer_cv = FakeCV(self, chan.lock)
         chmod.time = Clock(self)
@@ -387,7 +405,20 @@ class Rig:
         elif k == "shutr":
             c.shutdown_read()
         elif k == "mode":
-            c.settimeout(None if w[1] == "b" else 0.0 if w[1] == "n" else float(int(w[1][1:])))
+            # b/bb blocking (settimeout(None) / setblocking(1)); n/n0/nb non-blocking (settimeout(0.0) /
+            # settimeout(0) / setblocking(0)); t<k> timed
+            if w[1] == "b":
+                c.settimeout(None)
+            elif w[1] == "bb":
+                c.setblocking(1)
+            elif w[1] == "n":
+                c.settimeout(0.0)
+            elif w[1] == "n0":
+                c.settimeout(0)
+            elif w[1] == "nb":
+                c.setblocking(0)
+            else:
+                c.settimeout(float(int(w[1][1:])))
         elif k == "feed":
             m = M()
             m.add_string(b"f" * int(w[1]))
@@ -439,6 +470,18 @@ class Rig:
             for t, lt in enumerate(self.threads):
                 if lt.state == "waiting" and not self.is_signalled(t):
                     return t
+        return None
+
+    def protocol_problem(self):
+        """model-independent checks that hold for every schedule: addressing and non-blocking mode"""
+        if self.misaddressed is not None:
+            return ("message-addressed-to-wrong-channel-id",
+                    "%s addressed to channel %d; the peer's id for this channel is %d (ours is %d)"
+                    % (self.misaddressed[0], self.misaddressed[1], self.remote_id, self.chan.chanid))
+        if self.nonblocking_wait is not None:
+            return ("nonblocking-send-went-to-sleep",
+                    "thread %d entered out_buffer_cv.wait(%r) in non-blocking mode instead of raising socket.timeout"
+                    % self.nonblocking_wait)
         return None
 
     def _bytes_by(self, t):
